@@ -192,7 +192,8 @@ theorem stripChars_mid (chars : List Nat) (pre mid post : Str)
   cases mid with
   | nil =>
     have : List.dropWhile chars.contains ([] ++ post) = [] := by
-      rw [List.nil_append, List.dropWhile_eq_nil_iff]; exact hpost
+      have h := List.dropWhile_append_of_pos (p := chars.contains) (l₂ := []) hpost
+      simpa using h
     rw [this]; rfl
   | cons c r =>
     rw [List.cons_append, List.dropWhile_cons_of_neg (by rw [hhead c rfl]; exact Bool.false_ne_true)]
@@ -369,29 +370,30 @@ theorem numericoid_scan {x : Str} (h : IsNumericOidText x) {rest : Str} (hr : St
   · have := arcsTail_length as
     simp; omega
 
+theorem arcsTail_chars (as : List Str) (h : ∀ a ∈ as, IsNumber a) :
+    ∀ c ∈ arcsTail as, Schema.isDigit c = true ∨ c = 46 := by
+  induction as with
+  | nil => simp [arcsTail]
+  | cons b bs ih =>
+    intro c hc
+    rw [arcsTail_cons] at hc
+    rcases List.mem_cons.1 hc with rfl | hc
+    · exact Or.inr rfl
+    · rcases List.mem_append.1 hc with hc | hc
+      · exact Or.inl (isNumber_digits (h b (by simp)) c hc)
+      · exact ih (fun x hx => h x (List.mem_cons_of_mem _ hx)) c hc
+
 /-- the characters of a numeric OID -/
 theorem numericoid_chars {x : Str} (h : IsNumericOidText x) : ∀ c ∈ x, Schema.isDigit c = true ∨ c = 46 := by
   obtain ⟨as, ⟨_, hnum⟩, rfl⟩ := h
-  induction as with
+  cases as with
   | nil => simp [Schema.joinWith]
-  | cons a as ih =>
+  | cons a as =>
     rw [joinWith_dot]
     intro c hc
     rcases List.mem_append.1 hc with hc | hc
     · exact Or.inl (isNumber_digits (hnum a (by simp)) c hc)
-    · clear ih
-      induction as with
-      | nil => simp [arcsTail] at hc
-      | cons b bs ih2 =>
-        rw [arcsTail_cons] at hc
-        rcases List.mem_cons.1 hc with rfl | hc
-        · exact Or.inr rfl
-        · rcases List.mem_append.1 hc with hc | hc
-          · exact Or.inl (isNumber_digits (hnum b (by simp)) c hc)
-          · exact ih2 (fun x hx => hnum x (by
-              rcases List.mem_cons.1 hx with rfl | hx
-              · simp
-              · simp [hx])) (by simp [hc]) hc
+    · exact arcsTail_chars as (fun x hx => hnum x (List.mem_cons_of_mem _ hx)) c hc
 
 theorem numericoid_head {x : Str} (h : IsNumericOidText x) : ∃ c r, x = c :: r ∧ Schema.isDigit c = true := by
   obtain ⟨as, ⟨hlen, hnum⟩, rfl⟩ := h
